@@ -129,11 +129,12 @@ func StrProps(propContainer map[string]object.PanObject) map[string]object.PanOb
 		"/": f(
 			func(
 				env *object.Env, kwargs *object.PanObj, args ...object.PanObject,
-			) object.PanObject {
+			) (ret object.PanObject) {
 				self, sep, err := checkStrInfixArgs(args, "/")
 				if err != nil {
 					return err
 				}
+				defer recoverRegexPanic(sep, &ret)
 				//                        pattern     RegexOptions
 				p, cerr := regexp2.Compile(sep.Value, 0)
 				if cerr != nil {
@@ -329,7 +330,7 @@ func StrProps(propContainer map[string]object.PanObject) map[string]object.PanOb
 		"match": f(
 			func(
 				env *object.Env, kwargs *object.PanObj, args ...object.PanObject,
-			) object.PanObject {
+			) (ret object.PanObject) {
 				if len(args) < 2 {
 					return object.NewTypeErr("Str#match requires at least 2 args")
 				}
@@ -342,6 +343,7 @@ func StrProps(propContainer map[string]object.PanObject) map[string]object.PanOb
 					return object.NewTypeErr(`\2 must be str`)
 				}
 
+				defer recoverRegexPanic(pattern, &ret)
 				//                        pattern     RegexOptions
 				p, err := regexp2.Compile(pattern.Value, 0)
 				if err != nil {
@@ -412,7 +414,7 @@ func StrProps(propContainer map[string]object.PanObject) map[string]object.PanOb
 		"sub": f(
 			func(
 				env *object.Env, kwargs *object.PanObj, args ...object.PanObject,
-			) object.PanObject {
+			) (ret object.PanObject) {
 				if len(args) < 3 {
 					return object.NewTypeErr("Str#sub requires at least 3 args")
 				}
@@ -429,6 +431,7 @@ func StrProps(propContainer map[string]object.PanObject) map[string]object.PanOb
 					return object.NewTypeErr(`\3 must be str`)
 				}
 
+				defer recoverRegexPanic(pattern, &ret)
 				//                        pattern     RegexOptions
 				p, err := regexp2.Compile(pattern.Value, 0)
 				if err != nil {
